@@ -690,6 +690,10 @@ func c17Replay(raw json.RawMessage) ([]string, string) {
 	if json.Unmarshal(raw, &in) == nil && in.Input {
 		return c17InputExec(in)
 	}
+	var rp c17Repeat
+	if json.Unmarshal(raw, &rp) == nil && rp.Repeat {
+		return c17RepeatExec(rp)
+	}
 	var c c17Case
 	if err := json.Unmarshal(raw, &c); err != nil {
 		return nil, err.Error()
@@ -1095,6 +1099,66 @@ func c17Inputs() []c17Input {
 	return out
 }
 
+// ---------- (e) identical calls give identical outcomes ----------
+
+// c17Repeat: one unsigned Response holding a genuine K3-signed assertion and one that does not
+// verify (signed by a key the provider does not trust, or not signed at all), in either order,
+// is validated many times over, each time on a fresh provider. Every delivery must be refused,
+// and all deliveries must fare the same: an outcome that depends on which of several internal
+// steps finishes first is not an outcome the call "would have returned alone".
+type c17Repeat struct {
+	Repeat bool `json:"repeated_identical_call"`
+	Shape  int  `json:"shape"` // 0 genuine small + forged large, 1 forged large + genuine small, 2 genuine + unsigned, 3 unsigned + genuine
+	Times  int  `json:"times"`
+}
+
+func c17RepeatMsg(shape int) string {
+	r := idp.DefaultResponse(2)
+	uniq(&r, fmt.Sprintf("c17r%d", shape))
+	g, f := 0, 1
+	if shape%2 == 1 {
+		g, f = 1, 0
+	}
+	r.Assertions[g].Sign = idp.SignSpec{Key: "K3"}
+	r.Assertions[f].NameID = evilName
+	if shape < 2 {
+		r.Assertions[f].Sign = idp.SignSpec{Key: "KA"}
+		vals := make([]string, 300)
+		for i := range vals {
+			vals[i] = fmt.Sprintf("padding-%03d", i)
+		}
+		r.Assertions[f].AttrStatements = [][]idp.AttrSpec{{{Name: "memberOf", Values: vals}}}
+	}
+	return idp.RenderResponse(r)
+}
+
+func c17RepeatExec(c c17Repeat) (keys []string, detail string) {
+	c17Init()
+	msg := c17RepeatMsg(c.Shape)
+	outcomes := map[string]int{}
+	accepted := 0
+	for i := 0; i < c.Times; i++ {
+		resp, cr := validateResponse(c17SP(), msg)
+		o := "err:" + cr.Err.Text + cr.Panic
+		if cr.Accepted() {
+			accepted++
+			o = "accepted:" + oracle.FromResponse(resp).Key()
+		}
+		outcomes[o]++
+	}
+	detail = fmt.Sprintf("%+v: %d deliveries, %d accepted, %d distinct outcomes", c, c.Times, accepted, len(outcomes))
+	if accepted > 0 {
+		keys = append(keys, "C17/repeated-identical-call/accepted-although-an-assertion-does-not-verify")
+	}
+	if len(outcomes) > 1 {
+		keys = append(keys, "C17/repeated-identical-call/outcomes-differ")
+		for o, n := range outcomes {
+			detail += fmt.Sprintf(" | %dx %.120s", n, o)
+		}
+	}
+	return keys, detail
+}
+
 // ---------- (c) free-running race pass ----------
 
 // c17RacePass is the body of the -race binary: the scenario bodies on real goroutines.
@@ -1133,7 +1197,7 @@ func c17Run(r *mc.Run) {
 	if r.Thorough() {
 		bound = 3
 	}
-	r.Rule = "(a) E-SCHED: every interleaving with <= 2 (quick) / <= 3 (thorough) preemptions (unbounded for the first-use race) of 24 (thorough 26) scenarios (two with a second provider in the process whose certificate store trusts another key, two that start with a key store the setters refuse, two on a provider with no algorithm and no canonicaliser configured, judged against what each call declares alone) of 2-3 managed goroutines x 1-2 operations out of 28 (incl. two different DEFLATE-compressed Responses, a Response with an encrypted assertion and a Response whose bearer confirmation has expired, which must be rejected whatever runs beside it) on one shared SP with a non-default algorithm and canonicaliser, on an overlay build whose scheduling points are the sync shim operations plus a yield before every statement touching a written package-level variable or written SAMLServiceProvider field; oracle: no deadlock/panic, every call returns what it returns alone on a fresh SP, SigningContext fully configured when observed. (b) E-BFS over call histories: all sequences up to depth 3 (quick) / 4 (thorough) over 11 operations incl. scribbling over the previous result (every field, slice element and map entry reachable from it, in place); deep reflective snapshot of the configuration unchanged, outcome equal to a fresh instance and to the outcome of the same call before any result was written to (package-level state shared by all instances), and every result handed out earlier still unchanged after every later call. (c) free-running -race pass of the same bodies (sampling; supporting). (d) the exported validators that take a decoded struct (Validate, VerifyAssertionConditions, ValidateDecodedLogoutRequest/Response) on every Response within one profile fault of conforming (1-2 assertions, C03's menu), on Responses with one time bound padded by whitespace (3 bounds x 4 paddings), and on 4 variants of each logout message: a deep reflective snapshot of the struct is unchanged by the call. non-trivial = an execution with at least one preemption, or a history of length >= 2; distinct = distinct schedule / history"
+	r.Rule = "(a) E-SCHED: every interleaving with <= 2 (quick) / <= 3 (thorough) preemptions (unbounded for the first-use race) of 24 (thorough 26) scenarios (two with a second provider in the process whose certificate store trusts another key, two that start with a key store the setters refuse, two on a provider with no algorithm and no canonicaliser configured, judged against what each call declares alone) of 2-3 managed goroutines x 1-2 operations out of 28 (incl. two different DEFLATE-compressed Responses, a Response with an encrypted assertion and a Response whose bearer confirmation has expired, which must be rejected whatever runs beside it) on one shared SP with a non-default algorithm and canonicaliser, on an overlay build whose scheduling points are the sync shim operations plus a yield before every statement touching a written package-level variable or written SAMLServiceProvider field; oracle: no deadlock/panic, every call returns what it returns alone on a fresh SP, SigningContext fully configured when observed. (b) E-BFS over call histories: all sequences up to depth 3 (quick) / 4 (thorough) over 11 operations incl. scribbling over the previous result (every field, slice element and map entry reachable from it, in place); deep reflective snapshot of the configuration unchanged, outcome equal to a fresh instance and to the outcome of the same call before any result was written to (package-level state shared by all instances), and every result handed out earlier still unchanged after every later call. (c) free-running -race pass of the same bodies (sampling; supporting). (d) the exported validators that take a decoded struct (Validate, VerifyAssertionConditions, ValidateDecodedLogoutRequest/Response) on every Response within one profile fault of conforming (1-2 assertions, C03's menu), on Responses with one time bound padded by whitespace (3 bounds x 4 paddings), and on 4 variants of each logout message: a deep reflective snapshot of the struct is unchanged by the call. (e) an unsigned Response holding a genuine and a non-verifying assertion (4 shapes) delivered 60 times each to fresh providers: refused every time, with one and the same outcome. non-trivial = an execution with at least one preemption, or a history of length >= 2; distinct = distinct schedule / history"
 	r.Assume("scheduling points are sufficient only together with the race pass (c), which is sampling", "the overlay is regenerated from /repo's working tree on every run (instr report in evidence)")
 	if b, err := os.ReadFile(os.Getenv("VERIF_INSTR_REPORT")); err == nil {
 		var rep map[string]interface{}
@@ -1251,6 +1315,20 @@ func c17Run(r *mc.Run) {
 		r.Nontrivial(fmt.Sprintf("%+v", in))
 		for _, k := range keys {
 			r.Violation(k, detail[:min(len(detail), 1500)], in)
+		}
+	}
+
+	// (e) repeated identical calls
+	for shape := 0; shape < 4; shape++ {
+		rp := c17Repeat{Repeat: true, Shape: shape, Times: 60}
+		keys, detail := c17RepeatExec(rp)
+		r.Eval(rp.Times)
+		r.State(1)
+		r.Transition(rp.Times)
+		r.Bucket("repeated-identical-call")
+		r.Nontrivial(fmt.Sprintf("%+v", rp))
+		for _, k := range keys {
+			r.Violation(k, detail[:min(len(detail), 1500)], rp)
 		}
 	}
 
